@@ -882,6 +882,23 @@ class _GroupElem(ABC):
 
         jacobian_e_pg = FeArray.asfearray(Det(F_e_pg))
 
+        if self.dim in [1, 2] and self.dim != self.inDim:
+            # Elements embedded in a space of higher dimension (edges of a 2D mesh, faces of a 3D mesh):
+            # F_e_pg describes the projection of the element on its own frame (built on its vertices).
+            # The measure of a curved element is the norm of its tangent (1D) or of the cross product of its tangents (2D).
+            connect = self._global_to_local_nodes[self.connect]
+            coord_e = self.coord[connect]
+            dN_pg = self.Get_dN_pg(matrixType)
+            tangents_e_pg = np.einsum("pdn,eni->epdi", dN_pg, coord_e, optimize="optimal")
+            if self.dim == 1:
+                measure_e_pg = np.linalg.norm(tangents_e_pg[:, :, 0], axis=-1)
+            else:
+                measure_e_pg = np.linalg.norm(
+                    np.cross(tangents_e_pg[:, :, 0], tangents_e_pg[:, :, 1]), axis=-1
+                )
+            sign_e_pg = np.where(np.asarray(jacobian_e_pg) < 0, -1.0, 1.0)
+            jacobian_e_pg = FeArray.asfearray(sign_e_pg * measure_e_pg)
+
         if absoluteValues:
             jacobian_e_pg = np.abs(jacobian_e_pg)
 
